@@ -63,8 +63,11 @@ def HX_Eff(Arrangement, Ntu, c, Passes=None, Rows=None, Cmin_Phase=None):
 
     Ntu = Ntu / Passes
     if Ntu > 0 and c >= 0:
+        if c == 0:
+            # One stream changes phase (C_min/C_max = 0): every arrangement reduces to 1 - exp(-NTU)
+            eff = 1 - math.exp(-Ntu)
         # Counter Flow - Single Pass Effectiveness
-        if Arrangement == HX.CF.value:
+        elif Arrangement == HX.CF.value:
             # test = c * math.exp(-Ntu * (1 - c))
             if c != 1 and c * math.exp(-Ntu * (1 - c)) != 1:
                 eff = (1 - math.exp(-Ntu * (1 - c))) / (
@@ -122,8 +125,11 @@ def HX_NTU(Arrangement, eff, c, Passes=None):
         eff = Eff_p
 
     if eff > 0 and eff < 1:
+        if c == 0:
+            # One stream changes phase (C_min/C_max = 0): every arrangement reduces to -ln(1 - eff)
+            Ntu = -math.log(1 - eff)
         # Counter Flow - Single Pass Effectiveness
-        if Arrangement == HX.CF.value:
+        elif Arrangement == HX.CF.value:
             if c != 1:
                 Ntu = 1 / (1 - c) * math.log((1 - eff * c) / (1 - eff))
             else:
